@@ -86,14 +86,29 @@ def Drv.completeAll (d : Drv) : Drv :=
   let d := d.batch.foldl (fun d k => (d.apply k .completeOnly).1) d
   { d with batch := [] }
 
+/-- does `HandleAccountSpend` re-arm the other accounts of a batch it commits (regenerated call list)? -/
+def rewatchOthers : Bool :=
+  Pool.Gen.Lifecycle.handleSpendCases.any (fun c => (c.splitOn "WatchMatchedAccounts").length > 1)
+
 /-- a multi-sig spend handled for account `k` completes the pending batch for everybody first -/
 def Drv.spendFanout (d : Drv) (k : Nat) (t : Option Tx) : Drv :=
   match t, (d.get k).acct with
   | some t, some _ =>
     if t.wit == 2 && !d.batch.isEmpty then
       let others := d.batch.filter (· != k)
-      let d := others.foldl (fun d j => (d.apply j .completeOnly).1) d
-      { d with batch := d.batch.filter (· == k) }
+      let d1 := others.foldl (fun d j => (d.apply j .completeOnly).1) d
+      let d1 := { d1 with batch := d1.batch.filter (· == k) }
+      if rewatchOthers then
+        -- updatedAccounts + WatchMatchedAccounts: store order, stops at the first error
+        let upd := (others.filter fun j =>
+          let a := (d.get j).acct; let b := (d1.get j).acct
+          (a.map fun x => (x.state, x.outpoint, x.value)) != (b.map fun x => (x.state, x.outpoint, x.value)))
+        let upd := upd.toArray.qsort (· < ·) |>.toList
+        (upd.foldl (fun (acc : Drv × Res) j =>
+          match acc.2 with
+          | .ok => acc.1.apply j .watchMatched
+          | e => (acc.1, e)) (d1, Res.ok)).1
+      else d1
     else d
   | _, _ => d
 
@@ -152,6 +167,28 @@ def drvStep (d : Drv) (args : List String) : Drv × String :=
         let r := d'.apply k (.spend pos sk h)
         (r.1, render d r.1 (fmtRes r.2))
     | _, _, _, _ => bad
+  | ["spend2", ka, posa, kinda, ida, kb, posb, kindb, idb, h] =>
+    -- two spend notifications handled concurrently: the pending-batch mutex serialises the handlers,
+    -- A first; B's transaction is the one the chain reported (taken from the state before A ran)
+    match nat? ka, nat? posa, spendKind? kinda ida, nat? kb, nat? posb, spendKind? kindb idb, nat? h with
+    | some ka, some posa, some ska, some kb, some posb, some skb, some h =>
+      let sa := d.get ka
+      let sb := d.get kb
+      match sa.w.spendRegs[posa]?, sb.w.spendRegs[posb]? with
+      | some ra, some rb =>
+        match spendTx sa ska ra.op, spendTx sb skb rb.op with
+        | some ta, some tb =>
+          -- both registrations have fired before either handler is past the pending-batch section
+          let d0 := (d.apply ka (.consumeSpend posa)).1
+          let d0 := (d0.apply kb (.consumeSpend posb)).1
+          let d1 := d0.spendFanout ka (some ta)
+          let r1 := d1.apply ka (.spendH ta h)
+          let d2 := r1.1.spendFanout kb (some tb)
+          let r2 := d2.apply kb (.spendH tb h)
+          (r2.1, render d r2.1 (fmtRes r1.2 ++ "+" ++ fmtRes r2.2))
+        | _, _ => bad
+      | _, _ => bad
+    | _, _, _, _, _, _, _ => bad
   | ["spendd", k, kind, id, h] =>
     match nat? k, spendKind? kind id, nat? h with
     | some k, some sk, some h =>
